@@ -9,8 +9,10 @@ import (
 	"strings"
 	"syscall"
 
+	"github.com/protobom/protobom/pkg/reader"
 	"github.com/protobom/protobom/pkg/sbom"
 	"github.com/protobom/protobom/pkg/storage"
+	"github.com/protobom/protobom/pkg/writer"
 	"google.golang.org/protobuf/proto"
 )
 
@@ -28,6 +30,7 @@ func cmdStoreOne(args []string) int {
 	docfile := fs.String("docfile", "", "")
 	noclobber := fs.Bool("noclobber", false, "")
 	nilopts := fs.Bool("nilopts", false, "")
+	api := fs.Bool("api", false, "go through writer.Writer.Store instead of the backend directly")
 	_ = fs.Parse(args)
 	b, err := os.ReadFile(*docfile)
 	if err != nil {
@@ -45,6 +48,18 @@ func cmdStoreOne(args []string) int {
 	if !*nilopts {
 		opts = &storage.StoreOptions{NoClobber: *noclobber}
 	}
+	if *api {
+		wopts := []writer.WriterOption{writer.WithStoreRetriever(be)}
+		if opts != nil {
+			wopts = append(wopts, writer.WithStoreOptions(opts))
+		}
+		if err := writer.New(wopts...).Store(doc); err != nil {
+			fmt.Println("ERR", err)
+			return 1
+		}
+		fmt.Println("OK")
+		return 0
+	}
 	if err := be.Store(doc, opts); err != nil {
 		fmt.Println("ERR", err)
 		return 1
@@ -57,6 +72,7 @@ func cmdRetrieveOne(args []string) int {
 	fs := flag.NewFlagSet("retrieveone", flag.ExitOnError)
 	dir := fs.String("dir", "", "")
 	idfile := fs.String("idfile", "", "")
+	api := fs.Bool("api", false, "go through reader.Reader.Retrieve instead of the backend directly")
 	_ = fs.Parse(args)
 	idb, err := os.ReadFile(*idfile)
 	if err != nil {
@@ -65,7 +81,12 @@ func cmdRetrieveOne(args []string) int {
 	}
 	be := storage.NewFileSystem()
 	be.Options.Path = *dir
-	doc, err := be.Retrieve(string(idb), &storage.RetrieveOptions{})
+	var doc *sbom.Document
+	if *api {
+		doc, err = reader.New(reader.WithStoreRetriever(be), reader.WithRetrieveOptions(&storage.RetrieveOptions{})).Retrieve(string(idb))
+	} else {
+		doc, err = be.Retrieve(string(idb), &storage.RetrieveOptions{})
+	}
 	switch {
 	case err != nil && doc != nil:
 		fmt.Println("BOTH", err)
